@@ -1,16 +1,34 @@
 (* Proofs/PinTest_iter2.v -- compiled copy of the pinned blocks of coq/Props/pending/C08_iter2.v.txt and
-   C09_iter2.v.txt (package iter2), under the imports of Props/C08.v / Props/C09.v plus the lines the pending files
-   name: proves that the blocks compile as they stand.  Generated together with the .txt files; not a property file. *)
+   C09_iter2.v.txt (package iter2): the imports of Props/C08.v / Props/C09.v, then -- to reproduce the situation at the end of
+   the merged property files -- the two import sentences the r2c2 block ends with, then the pending files verbatim.
+   Proves that the blocks compile as they stand.  Generated together with the .txt files; not a property file. *)
+From Coq Require Import List Arith ZArith Floats Reals.
+From OV Require Import Base.Panic Base.Arith Model.Vector Model.Matrix Model.Sparse Model.Iter Inst.FloatInst Inst.QcInst
+  Proofs.Iter Proofs.IterField Proofs.IterInst Proofs.IterR Proofs.IterRows.
+Import ListNotations.
+From Coq Require Import Floats.
+From OV Require Import Inst.FloatInst.
+
+(* pending blocks of package iter2 for Props/C08.v -- append to the END of the file, as they stand.
+   The block starts with its own import sentences: they repeat the imports of the property file and add the proof files of
+   this package, so the block is independent of what was appended before it (a later `Require Import Floats` -- as in the
+   r2c2 block -- shadows leb/ltb/div/sqrt of Base.Arith with the primitive-float versions; re-importing Base.Arith after it
+   restores them).  Compiled copy of exactly these sentences: coq/Proofs/PinTest_iter2.v *)
 From Coq Require Import List Arith ZArith Floats Reals.
 From OV Require Import Base.Panic Base.Arith Model.Vector Model.Matrix Model.Sparse Model.Iter Inst.FloatInst Inst.QcInst
   Proofs.Iter Proofs.IterField Proofs.IterInst Proofs.IterR Proofs.IterRows.
 From OV Require Import Proofs.SparseBase Proofs.SparseMul Proofs.IterSparse Proofs.IterSparseErr Proofs.IterSparseR
   Proofs.IterSparseBreakdown Proofs.IterCGExamples.
-From OV Require Import Proofs.SparseBase Proofs.SparseMul Proofs.IterR Proofs.IterSparse Proofs.IterSparseR Proofs.IterSparseBreakdown Proofs.IterSparseBreakdownField Proofs.IterSparseBreakdownQMR Proofs.IterSparseBreakdownTri
-  Proofs.IterCGVec Proofs.IterCGDim Proofs.IterCG Proofs.IterCGR Proofs.IterCGBi Proofs.IterCGSparse Proofs.IterCGDominant Proofs.IterCGOneStep Proofs.IterCGOneStepR
-  Proofs.IterCGExamples.
 Import ListNotations.
-Module C08.
+
+(* ---- round two (package iter2): the theorems above for the IMPLEMENTATION'S OWN matrix type.
+        [run_sparse sv s b x0 n tol] = run at the CSC products sp_mul s / sp_tmul s and the public fields
+        sp_rows s / sp_cols s (run_sparse_is_run above): the function the correspondence check runs against the
+        executor.  [wfS s] = the storage invariant of C06 (Proofs/SparseBase.v; duplicates allowed);
+        [sp_apply s x] = the textbook product of the matrix the storage denotes, entry i = sum_j (sp_entry s i j) x_j
+        (C07: sp_mul_spec).  No hypothesis on the shape: a run that returns anything passed the solver's own
+        guards, so the matrix is square and the vectors have its order (solver_guards_square). ---- *)
+
 (* the hypothesis LinOp of ok_means_solved / residual_invariant_* / exact_guess_ok0 discharged for EVERY well-formed square
    compressed-sparse-column storage, from package sparse's sp_mul_spec (ring laws only) *)
 Theorem sparse_is_linop : forall (A : Arith), RingLaws A -> forall (s : sparse A) n,
@@ -214,9 +232,25 @@ Check err_reports_true_residual_sparse_R : forall sv (s : sparse AR) (b x0 : lis
   (g_exit g = 2 -> (tol <= e)%R).
 Print Assumptions err_reports_true_residual_sparse_R.
 
-End C08.
+(* pending blocks of package iter2 for Props/C09.v -- append to the END of the file, as they stand.
+   The block starts with its own import sentences: they repeat the imports of the property file and add the proof files of
+   this package, so the block is independent of what was appended before it (a later `Require Import Floats` -- as in the
+   r2c2 block -- shadows leb/ltb/div/sqrt of Base.Arith with the primitive-float versions; re-importing Base.Arith after it
+   restores them).  Compiled copy of exactly these sentences: coq/Proofs/PinTest_iter2.v *)
+From Coq Require Import List Arith ZArith Floats Reals.
+From OV Require Import Base.Panic Base.Arith Model.Vector Model.Matrix Model.Sparse Model.Iter Inst.FloatInst Inst.QcInst
+  Proofs.Iter Proofs.IterField Proofs.IterInst Proofs.IterR Proofs.IterRows.
+From OV Require Import Proofs.SparseBase Proofs.SparseMul Proofs.IterR Proofs.IterSparse Proofs.IterSparseR Proofs.IterSparseBreakdown Proofs.IterSparseBreakdownField Proofs.IterSparseBreakdownQMR Proofs.IterSparseBreakdownTri
+  Proofs.IterCGVec Proofs.IterCGDim Proofs.IterCG Proofs.IterCGR Proofs.IterCGBi Proofs.IterCGSparse Proofs.IterCGDominant Proofs.IterCGOneStep Proofs.IterCGOneStepR
+  Proofs.IterCGExamples.
+Import ListNotations.
 
-Module C09.
+(* ---- round two (package iter2).  (1) the degenerate starts for the implementation's own matrix type;
+        (2) the CONVERGENCE half for conjugate gradients, as far as exact arithmetic allows -- theorems about the
+        MODEL's solve_cg (Model/Iter.v, cg_body: the loop of src/sparse.rs:441-487 statement by statement) over any
+        field / over R with the exact square root; they say nothing about f64 rounding, which stays search-only;
+        (3) the breakdown exits of BiCG / BiCGSTAB / QMR characterised (the three open findings). ---- *)
+
 (* every well-formed square storage: a guess with b - A x0 = 0 (A the matrix the storage denotes) is accepted at once, x0 untouched *)
 Theorem exact_guess_ok0_sparse : forall (A : SArith), FieldLaws (SA A) -> SqrtLaws A ->
   forall sv (s : sparse (SA A)) b x0 max tol,
@@ -1065,4 +1099,3 @@ Check bicgstab_last_row_breakdown : forall (A : SArith) (FL : FieldLaws (SA A)) 
   res = IOk 0 \/ res = IOk 1 \/ (exists e, res = IErr e /\ (g_exit g = 10 \/ g_exit g = 11)).
 Print Assumptions bicgstab_last_row_breakdown.
 
-End C09.
